@@ -76,14 +76,23 @@ def with_timeout(fn, secs=3):
         raise _CpuTimeout()
 
     old_h = signal.signal(signal.SIGVTALRM, h)
-    signal.setitimer(signal.ITIMER_VIRTUAL, secs)
+    res = {"other": "Timeout"}
     try:
-        return fn()
+        try:
+            signal.setitimer(signal.ITIMER_VIRTUAL, secs)
+            res = fn()
+        finally:
+            # the timer may fire between the end of fn() and its disarming (or inside an `except` block of the code
+            # under test that is just unwinding): such a late _CpuTimeout must not escape from here
+            signal.setitimer(signal.ITIMER_VIRTUAL, 0)
     except _CpuTimeout:
-        return {"other": "Timeout"}
+        signal.setitimer(signal.ITIMER_VIRTUAL, 0)
+        if not (isinstance(res, dict) and res.get("other") == "Timeout"):
+            pass  # fn() had already returned: keep its result
     finally:
         signal.setitimer(signal.ITIMER_VIRTUAL, 0)
         signal.signal(signal.SIGVTALRM, old_h)
+    return res
 
 
 def memo_pair(f):
